@@ -4,6 +4,7 @@ package main
 import (
 	"verif/mc/harness"
 	"verif/mc/props/c01"
+	"verif/mc/props/c02"
 	"verif/mc/props/c04"
 	"verif/mc/props/c05"
 	"verif/mc/props/c11"
@@ -14,6 +15,7 @@ import (
 func main() {
 	harness.Main(map[string]*harness.Prop{
 		"C01": c01.Prop,
+		"C02": c02.Prop,
 		"C04": c04.Prop,
 		"C05": c05.Prop,
 		"C11": c11.Prop,
